@@ -39,12 +39,14 @@ def length_options(size):
 
 def allowed_options(code_range, fixed):
     lo, hi = code_range
-    return {
+    options = {"alphabet-without-blank": [[lo, hi, False]]} if fixed else {}
+    options.update({
         "none": None,
         "alphabet": [[32, 32, True], [lo, hi, False]] if fixed else [[lo, hi, False]],
         "blank+alphabet": [[32, 32, True], [lo, hi, False]],
         "ascii": [[None, 127, False]],
-    }
+    })
+    return options
 
 
 def cells_for(decl, payload, allowed_name):
@@ -62,6 +64,8 @@ def cells_for(decl, payload, allowed_name):
     if allowed_name != "none":
         # characters outside the allowed range; whitespace-like ones matter because fixed cells are stripped
         bad_characters = [OUTSIDE["ascii"], "\xa0", "\u2003"] if allowed_name == "ascii" else [OUTSIDE["alphabet"], "\t", "\xa0", "\x0c"]
+        if allowed_name == "alphabet-without-blank":
+            bad_characters.append(" ")
         for bad in bad_characters:
             for position in range(len(payload)):
                 cells.append(payload[:position] + bad + payload[position + 1:])
@@ -181,6 +185,6 @@ def run(ctx):
                  "cells": "empty, blank-only (1, 3, width, width+1), payload, one short, one long, padded left/right, one disallowed character at every position"}
     ctx.rule = ("full product, no sampling; a case is one declaration with its guard-oriented cell list, validated on the real field format; "
                 "non-trivial = every declaration (each has cells that must be rejected by a guard); states = distinct declarations")
-    ctx.assumptions = ["for fixed format the allowed-character ranges always contain the blank (a blank-only cell with blanks disallowed is not settled by the statement)",
+    ctx.assumptions = ["a blank-only fixed cell while blanks are not allowed is not judged (empty vs. disallowed character is not settled by the statement); partly filled cells are",
                        "the type's empty value is None for Integer/Decimal/DateTime and '' for the text-like types"]
     ctx.pmap(MOD, "work", engine.chunks(cases, 40), label="C03")
